@@ -1,1 +1,1212 @@
-fn main(){}
+//! xaddsim — deterministic simulation of N concurrent eBPF executions (interpreter, x86-64 JIT,
+//! Cranelift; real machine code) doing atomic adds on shared words, under a seeded scheduler that
+//! decides the interleaving of every memory micro-operation (DESIGN.md section 5). Decides C18.
+//!
+//!   xaddsim run    --seed S --start A --count N --out FILE [--hash-every K]
+//!   xaddsim replay FILE
+//!   xaddsim show   --seed S --index I
+
+mod decode;
+mod sched;
+
+use sched::*;
+use simcore::json::{self, JsonValue};
+use simcore::{mix, Fnv, Rng};
+use std::collections::{BTreeMap, BTreeSet};
+use std::time::Instant;
+
+// ---------------------------------------------------------------------------------------------
+// Scenario
+// ---------------------------------------------------------------------------------------------
+
+#[derive(Clone, Copy, PartialEq, Eq, Debug)]
+enum Engine {
+    Interp,
+    Jit,
+    Cl,
+}
+impl Engine {
+    fn name(self) -> &'static str {
+        match self {
+            Engine::Interp => "interp",
+            Engine::Jit => "jit",
+            Engine::Cl => "cranelift",
+        }
+    }
+    fn parse(s: &str) -> Option<Engine> {
+        Some(match s {
+            "interp" => Engine::Interp,
+            "jit" => Engine::Jit,
+            "cranelift" => Engine::Cl,
+            _ => return None,
+        })
+    }
+}
+
+/// How the program reaches the shared page.
+#[derive(Clone, Copy, PartialEq, Eq, Debug)]
+enum Reach {
+    /// EbpfVmRaw, packet = the shared region (all engines)
+    RawPacket,
+    /// EbpfVmMbuff, metadata buffer = the shared region, empty packet (all engines)
+    Mbuff,
+    /// EbpfVmNoData + register_allowed_memory + lddw r1, <address> (interpreter only)
+    Allowed,
+}
+impl Reach {
+    fn name(self) -> &'static str {
+        match self {
+            Reach::RawPacket => "raw_packet",
+            Reach::Mbuff => "mbuff",
+            Reach::Allowed => "allowed_memory",
+        }
+    }
+    fn parse(s: &str) -> Option<Reach> {
+        Some(match s {
+            "raw_packet" => Reach::RawPacket,
+            "mbuff" => Reach::Mbuff,
+            "allowed_memory" => Reach::Allowed,
+            _ => return None,
+        })
+    }
+}
+
+#[derive(Clone, Debug)]
+struct Add {
+    width: u8,
+    /// byte offset inside the shared region
+    off: u16,
+    addend: u64,
+    /// eBPF registers used: base register and source register
+    base_reg: u8,
+    src_reg: u8,
+    /// address is formed as (region + bias) + (off - bias): exercises negative / 32-bit displacements
+    bias: i32,
+    via_lddw: bool,
+}
+
+#[derive(Clone, Debug)]
+struct ExecSpec {
+    engine: Engine,
+    reach: Reach,
+    adds: Vec<Add>,
+    /// trailing load of one word (a pure scheduling point), or none
+    tail_load: Option<(u16, u8)>,
+}
+
+#[derive(Clone, Debug)]
+struct Scenario {
+    /// length of the shared region handed to the programs (starts at page offset 0)
+    region_len: usize,
+    init: Vec<u8>,
+    execs: Vec<ExecSpec>,
+    strategy: Strategy,
+    /// explicit decision list (replay) — empty when the schedule is to be drawn from the PRNG
+    schedule: Option<Vec<u8>>,
+}
+
+fn aligned(a: &Add) -> bool {
+    a.off as usize % a.width as usize == 0
+}
+
+fn ins(opc: u8, dst: u8, src: u8, off: i16, imm: i32) -> [u8; 8] {
+    let o = off.to_le_bytes();
+    let i = imm.to_le_bytes();
+    [opc, (src << 4) | (dst & 0xf), o[0], o[1], i[0], i[1], i[2], i[3]]
+}
+
+fn build_program(e: &ExecSpec, region_addr: u64) -> Vec<u8> {
+    let mut v: Vec<u8> = Vec::new();
+    let mut push = |x: [u8; 8]| v.extend_from_slice(&x);
+    if e.reach == Reach::Allowed {
+        // lddw r1, region address
+        push(ins(0x18, 1, 0, 0, region_addr as u32 as i32));
+        push(ins(0, 0, 0, 0, (region_addr >> 32) as u32 as i32));
+    }
+    // r6 = r1 (a second base register with a different x86 encoding)
+    push(ins(0xbf, 6, 1, 0, 0));
+    for a in &e.adds {
+        // base register = region + bias
+        if a.base_reg != 1 || a.bias != 0 {
+            push(ins(0xbf, a.base_reg, 6, 0, 0));
+            if a.bias != 0 {
+                push(ins(0x07, a.base_reg, 0, 0, a.bias));
+            }
+        }
+        if a.via_lddw {
+            push(ins(0x18, a.src_reg, 0, 0, a.addend as u32 as i32));
+            push(ins(0, 0, 0, 0, (a.addend >> 32) as u32 as i32));
+        } else {
+            push(ins(0xb7, a.src_reg, 0, 0, a.addend as i64 as i32));
+        }
+        let disp = a.off as i32 - a.bias;
+        push(ins(if a.width == 4 { 0xc3 } else { 0xdb }, a.base_reg, a.src_reg, disp as i16, 0));
+        if a.base_reg == 1 && a.bias != 0 {
+            push(ins(0xbf, 1, 6, 0, 0));
+        }
+    }
+    match e.tail_load {
+        Some((off, w)) => push(ins(if w == 4 { 0x61 } else { 0x79 }, 0, 6, off as i16, 0)),
+        None => push(ins(0xb7, 0, 0, 0, 0)),
+    }
+    push(ins(0x95, 0, 0, 0, 0));
+    v
+}
+
+impl Scenario {
+    fn to_json(&self) -> JsonValue {
+        let mut o = JsonValue::new_object();
+        o["region_len"] = self.region_len.into();
+        o["init"] = simcore::hex(&self.init[..self.region_len]).into();
+        o["strategy"] = format!("{:?}", self.strategy).into();
+        let mut ex = Vec::new();
+        for e in &self.execs {
+            let mut j = JsonValue::new_object();
+            j["engine"] = e.engine.name().into();
+            j["reach"] = e.reach.name().into();
+            let mut adds = Vec::new();
+            for a in &e.adds {
+                let mut aj = JsonValue::new_object();
+                aj["width"] = a.width.into();
+                aj["off"] = a.off.into();
+                aj["addend"] = simcore::ju64(a.addend);
+                aj["addend_hex"] = format!("{:#x}", a.addend).into();
+                aj["base_reg"] = a.base_reg.into();
+                aj["src_reg"] = a.src_reg.into();
+                aj["bias"] = a.bias.into();
+                aj["via_lddw"] = a.via_lddw.into();
+                aj["aligned"] = aligned(a).into();
+                adds.push(aj);
+            }
+            j["adds"] = JsonValue::Array(adds);
+            j["tail_load"] = match e.tail_load {
+                Some((o, w)) => json::array![o, w],
+                None => JsonValue::Null,
+            };
+            j["asm"] = disasm(&build_program(e, 0x1000_0000_0000)).into();
+            ex.push(j);
+        }
+        o["execs"] = JsonValue::Array(ex);
+        o["schedule"] = match &self.schedule {
+            Some(s) => JsonValue::Array(s.iter().map(|x| (*x).into()).collect()),
+            None => JsonValue::Null,
+        };
+        o
+    }
+    fn from_json(v: &JsonValue) -> Option<Scenario> {
+        let region_len = v["region_len"].as_usize()?;
+        let mut init = simcore::unhex(v["init"].as_str()?)?;
+        init.resize(PAGE, 0);
+        let mut execs = Vec::new();
+        for e in v["execs"].members() {
+            let mut adds = Vec::new();
+            for a in e["adds"].members() {
+                adds.push(Add {
+                    width: a["width"].as_u8()?,
+                    off: a["off"].as_u16()?,
+                    addend: simcore::pu64(&a["addend"])?,
+                    base_reg: a["base_reg"].as_u8()?,
+                    src_reg: a["src_reg"].as_u8()?,
+                    bias: a["bias"].as_i32()?,
+                    via_lddw: a["via_lddw"].as_bool()?,
+                });
+            }
+            execs.push(ExecSpec {
+                engine: Engine::parse(e["engine"].as_str()?)?,
+                reach: Reach::parse(e["reach"].as_str()?)?,
+                adds,
+                tail_load: if e["tail_load"].is_null() { None } else { Some((e["tail_load"][0].as_u16()?, e["tail_load"][1].as_u8()?)) },
+            });
+        }
+        let schedule = if v["schedule"].is_null() { None } else { Some(v["schedule"].members().map(|x| x.as_u8().unwrap_or(0)).collect()) };
+        Some(Scenario { region_len, init, execs, strategy: Strategy::Uniform, schedule })
+    }
+}
+
+fn disasm(bytes: &[u8]) -> String {
+    let b = bytes.to_vec();
+    std::panic::catch_unwind(move || rbpf::disassembler::to_insn_vec(&b).iter().map(|i| i.desc.clone()).collect::<Vec<_>>().join("; ")).unwrap_or_else(|_| "<not disassemblable>".into())
+}
+
+// ---------------------------------------------------------------------------------------------
+// Generation
+// ---------------------------------------------------------------------------------------------
+
+#[derive(Clone, Copy)]
+struct Slot {
+    off: u16,
+    /// 8 = one u64 word; 4 = two u32 words sharing the 8-byte slot
+    width: u8,
+}
+
+fn generate(rng: &mut Rng) -> Scenario {
+    let region_len = *rng.pick(&[64usize, 256, 2048]);
+    let mut init = vec![0u8; PAGE];
+    for b in init.iter_mut().take(region_len) {
+        *b = rng.next_u64() as u8;
+    }
+    // hot slots
+    let nslots = rng.range(1, 3) as usize;
+    let mut slots: Vec<Slot> = Vec::new();
+    while slots.len() < nslots {
+        let off = (rng.below((region_len / 8) as u64) * 8) as u16;
+        if slots.iter().any(|s| s.off == off) {
+            continue;
+        }
+        slots.push(Slot { off, width: if rng.chance(1, 2) { 8 } else { 4 } });
+        // make carries and wrap-arounds likely
+        if rng.chance(1, 2) {
+            for i in 0..8 {
+                init[off as usize + i] = 0xff;
+            }
+        }
+    }
+    let n = rng.range(2, 4) as usize;
+    let engines_enabled: Vec<Engine> = {
+        let mut v = Vec::new();
+        for e in [Engine::Interp, Engine::Jit, Engine::Cl] {
+            if rng.chance(3, 4) {
+                v.push(e);
+            }
+        }
+        if v.is_empty() {
+            v.push(*rng.pick(&[Engine::Interp, Engine::Jit, Engine::Cl]));
+        }
+        v
+    };
+    let misaligned_enabled = rng.chance(1, 4);
+    let mut execs = Vec::new();
+    for _ in 0..n {
+        let engine = *rng.pick(&engines_enabled);
+        let reach = match engine {
+            Engine::Interp => *rng.pick(&[Reach::RawPacket, Reach::Mbuff, Reach::Allowed, Reach::Allowed]),
+            _ => *rng.pick(&[Reach::RawPacket, Reach::RawPacket, Reach::Mbuff]),
+        };
+        let k = rng.range(1, 4) as usize;
+        let mut adds = Vec::new();
+        for _ in 0..k {
+            let s = *rng.pick(&slots);
+            let width = s.width;
+            let mut off = s.off + if width == 4 && rng.chance(1, 2) { 4 } else { 0 };
+            if misaligned_enabled && engine == Engine::Interp && rng.chance(1, 4) {
+                let m = rng.range(1, width as u64 - 1) as u16;
+                if (off + m) as usize + width as usize <= region_len {
+                    off += m;
+                }
+            }
+            let addend = match rng.below(6) {
+                0 => rng.range(1, 255),
+                1 => rng.next_u64(),
+                2 => (rng.next_u64() >> 1) | (1 << 63) | (1 << 31),
+                3 => (rng.range(1, 0xffff) << 32) | rng.below(1 << 32),
+                4 => (rng.range(1, 1000)).wrapping_neg(),
+                _ => 0xffff_ffff,
+            };
+            // never 0 modulo the width: every atomic add changes its word
+            let addend = if addend & mask(width) == 0 { addend | 1 } else { addend };
+            // mov64 sign-extends an imm32: usable when the value round-trips
+            let fits = addend as i64 as i32 as i64 as u64 == addend;
+            let via_lddw = !fits || rng.chance(1, 3);
+            let base_reg = *rng.pick(&[1u8, 1, 6, 7, 8]);
+            let src_reg = *rng.pick(&[2u8, 3, 4, 5, 9, 0]);
+            let bias = if base_reg == 6 {
+                0
+            } else {
+                match rng.below(4) {
+                    0 => 0,
+                    1 => (region_len as i32).min(64),
+                    2 => -(rng.range(1, 200) as i32),
+                    _ => (region_len as i32 / 2) & !7,
+                }
+            };
+            let bias = if (off as i32 - bias) > 32000 || (off as i32 - bias) < -32000 { 0 } else { bias };
+            adds.push(Add { width, off, addend, base_reg, src_reg, bias, via_lddw });
+        }
+        let tail_load = if rng.chance(1, 2) {
+            let s = *rng.pick(&slots);
+            Some((s.off, s.width))
+        } else {
+            None
+        };
+        execs.push(ExecSpec { engine, reach, adds, tail_load });
+    }
+    let strategy = match rng.below(3) {
+        0 => Strategy::Uniform,
+        1 => Strategy::Sticky(rng.range(1, 8) as u8),
+        _ => Strategy::Pct(rng.range(1, 4) as u8),
+    };
+    Scenario { region_len, init, execs, strategy, schedule: None }
+}
+
+// ---------------------------------------------------------------------------------------------
+// Running one scenario
+// ---------------------------------------------------------------------------------------------
+
+#[derive(Clone, Debug, PartialEq, Eq)]
+enum Outcome {
+    Ok(u64),
+    Err(String),
+    Panic(String),
+    Signal(i32),
+    NotBuilt(String),
+}
+impl Outcome {
+    fn code(&self) -> u8 {
+        match self {
+            Outcome::Ok(_) => 0,
+            Outcome::Err(_) => 1,
+            Outcome::Panic(_) => 2,
+            Outcome::Signal(_) => 3,
+            Outcome::NotBuilt(_) => 4,
+        }
+    }
+    fn short(&self) -> String {
+        match self {
+            Outcome::Ok(v) => format!("Ok({:#x})", v),
+            Outcome::Err(e) => format!("Err({})", e.lines().next().unwrap_or("").chars().take(80).collect::<String>()),
+            Outcome::Panic(p) => format!("Panic({})", p.chars().take(80).collect::<String>()),
+            Outcome::Signal(s) => format!("Signal({})", s),
+            Outcome::NotBuilt(e) => format!("NotBuilt({})", e.chars().take(80).collect::<String>()),
+        }
+    }
+}
+
+enum Vm {
+    Raw(rbpf::EbpfVmRaw<'static>),
+    Mbuff(rbpf::EbpfVmMbuff<'static>),
+    NoData(rbpf::EbpfVmNoData<'static>),
+}
+
+struct ThreadOut {
+    build: Outcome,
+    solo: Outcome,
+    conc: Outcome,
+}
+
+struct PassResult {
+    events: Vec<Event>,
+    effective: Vec<u8>,
+    switches: u32,
+    final_page: Vec<u8>,
+    overflow: bool,
+}
+
+struct RunOutput {
+    outs: Vec<ThreadOut>,
+    solo: Vec<PassResult>,
+    conc: PassResult,
+}
+
+fn exec_vm(vm: &Vm, engine: Engine, region: (*mut u8, usize)) -> Result<u64, std::io::Error> {
+    let region_slice = || unsafe { std::slice::from_raw_parts_mut(region.0, region.1) };
+    let empty = || unsafe { std::slice::from_raw_parts_mut(std::ptr::NonNull::<u8>::dangling().as_ptr(), 0) };
+    unsafe {
+        match (vm, engine) {
+            (Vm::Raw(vm), Engine::Interp) => vm.execute_program(region_slice()),
+            (Vm::Raw(vm), Engine::Jit) => vm.execute_program_jit(region_slice()),
+            (Vm::Raw(vm), Engine::Cl) => vm.execute_program_cranelift(region_slice()),
+            (Vm::Mbuff(vm), Engine::Interp) => vm.execute_program(empty(), region_slice()),
+            (Vm::Mbuff(vm), Engine::Jit) => vm.execute_program_jit(empty(), region_slice()),
+            (Vm::Mbuff(vm), Engine::Cl) => vm.execute_program_cranelift(empty(), region_slice()),
+            (Vm::NoData(vm), Engine::Interp) => vm.execute_program(),
+            (Vm::NoData(vm), Engine::Jit) => vm.execute_program_jit(),
+            (Vm::NoData(vm), Engine::Cl) => vm.execute_program_cranelift(),
+        }
+    }
+}
+
+fn conv(g: Guarded<Result<u64, std::io::Error>>) -> Outcome {
+    match g {
+        Guarded::Done(Ok(v)) => Outcome::Ok(v),
+        Guarded::Done(Err(e)) => Outcome::Err(e.to_string()),
+        Guarded::Panic(p) => Outcome::Panic(p),
+        Guarded::Signal(s) => Outcome::Signal(s),
+    }
+}
+
+fn worker(me: usize, spec: &ExecSpec, region: (usize, usize), out: &mut ThreadOut) {
+    let region = (region.0 as *mut u8, region.1);
+    // ---- phase: build (VM construction and compilation; does not touch the page) ----
+    wait_baton(me as i32);
+    let prog: &'static [u8] = Box::leak(build_program(spec, region.0 as u64).into_boxed_slice());
+    let built: Result<Vm, String> = (|| {
+        let r = std::panic::catch_unwind(|| -> Result<Vm, std::io::Error> {
+            Ok(match spec.reach {
+                Reach::RawPacket => {
+                    let mut vm = rbpf::EbpfVmRaw::new(Some(prog))?;
+                    match spec.engine {
+                        Engine::Jit => vm.jit_compile()?,
+                        Engine::Cl => vm.cranelift_compile()?,
+                        Engine::Interp => {}
+                    }
+                    Vm::Raw(vm)
+                }
+                Reach::Mbuff => {
+                    let mut vm = rbpf::EbpfVmMbuff::new(Some(prog))?;
+                    match spec.engine {
+                        Engine::Jit => vm.jit_compile()?,
+                        Engine::Cl => vm.cranelift_compile()?,
+                        Engine::Interp => {}
+                    }
+                    Vm::Mbuff(vm)
+                }
+                Reach::Allowed => {
+                    let mut vm = rbpf::EbpfVmNoData::new(Some(prog))?;
+                    let a = region.0 as u64;
+                    vm.register_allowed_memory(a..a + region.1 as u64);
+                    match spec.engine {
+                        Engine::Jit => vm.jit_compile()?,
+                        Engine::Cl => vm.cranelift_compile()?,
+                        Engine::Interp => {}
+                    }
+                    Vm::NoData(vm)
+                }
+            })
+        });
+        match r {
+            Ok(Ok(vm)) => Ok(vm),
+            Ok(Err(e)) => Err(e.to_string()),
+            Err(_) => Err("panic while building the VM".to_string()),
+        }
+    })();
+    out.build = match &built {
+        Ok(_) => Outcome::Ok(0),
+        Err(e) => Outcome::NotBuilt(e.clone()),
+    };
+    pass_baton(CTRL);
+    // ---- phase: solo ----
+    wait_baton(me as i32);
+    out.solo = match &built {
+        Ok(vm) => conv(guarded(me, || exec_vm(vm, spec.engine, region))),
+        Err(e) => Outcome::NotBuilt(e.clone()),
+    };
+    finish(me);
+    // ---- phase: concurrent ----
+    wait_baton(me as i32);
+    out.conc = match &built {
+        Ok(vm) => conv(guarded(me, || exec_vm(vm, spec.engine, region))),
+        Err(e) => Outcome::NotBuilt(e.clone()),
+    };
+    finish(me);
+    // the VM (and its executable pages) is dropped here, by the thread that built it; the
+    // program bytes are leaked deliberately (a few hundred bytes per execution).
+    drop(built);
+}
+
+fn finish(me: usize) {
+    let s = sim();
+    s.state[me] = 2;
+    let next = s.choose(-1);
+    pass_baton(next);
+}
+
+fn run_scenario(sc: &Scenario, rng: &mut Rng) -> RunOutput {
+    let s = sim();
+    let n = sc.execs.len();
+    s.nthreads = n;
+    s.state = [0; MAXT];
+    s.active = false;
+    let region = (s.prog_view as usize, sc.region_len);
+    let mut outs: Vec<ThreadOut> = (0..n).map(|_| ThreadOut { build: Outcome::Ok(0), solo: Outcome::Ok(0), conc: Outcome::Ok(0) }).collect();
+    let mut solo: Vec<PassResult> = Vec::new();
+    let mut conc = PassResult { events: Vec::new(), effective: Vec::new(), switches: 0, final_page: Vec::new(), overflow: false };
+    pass_baton(CTRL);
+    std::thread::scope(|scope| {
+        for (i, (spec, out)) in sc.execs.iter().zip(outs.iter_mut()).enumerate() {
+            scope.spawn(move || worker(i, spec, region, out));
+        }
+        // build, one thread at a time
+        for i in 0..n {
+            pass_baton(i as i32);
+            wait_baton(CTRL);
+        }
+        // solo pass: each execution alone on a freshly reset page
+        for i in 0..n {
+            page_reset(&sc.init);
+            page_protect(false);
+            s.state = [0; MAXT];
+            s.state[i] = 1;
+            s.begin_phase(Some(&[]), Strategy::Uniform);
+            s.active = true;
+            pass_baton(i as i32);
+            wait_baton(CTRL);
+            s.active = false;
+            solo.push(PassResult { events: s.events.clone(), effective: s.effective.clone(), switches: s.switches, final_page: page_snapshot(), overflow: s.overflow });
+        }
+        // concurrent pass
+        page_reset(&sc.init);
+        page_protect(false);
+        s.state = [0; MAXT];
+        for i in 0..n {
+            s.state[i] = 1;
+        }
+        match &sc.schedule {
+            Some(list) => s.begin_phase(Some(list), sc.strategy),
+            None => {
+                s.rng = rng.clone();
+                s.begin_phase(None, sc.strategy);
+            }
+        }
+        s.active = true;
+        let first = s.choose(-1);
+        pass_baton(first);
+        wait_baton(CTRL);
+        s.active = false;
+        conc = PassResult { events: s.events.clone(), effective: s.effective.clone(), switches: s.switches, final_page: page_snapshot(), overflow: s.overflow };
+    });
+    RunOutput { outs, solo, conc }
+}
+
+// ---------------------------------------------------------------------------------------------
+// Oracle
+// ---------------------------------------------------------------------------------------------
+
+#[derive(Clone, Debug)]
+struct Violation {
+    class: String,
+    detail: String,
+}
+
+fn mask(w: u8) -> u64 {
+    if w >= 8 {
+        u64::MAX
+    } else {
+        (1u64 << (8 * w as u32)) - 1
+    }
+}
+
+/// A write event: a store, an add-form RMW, or any other RMW / unclassified step that changed
+/// memory (a compare-exchange that failed leaves memory unchanged and is only a read; addends
+/// are never 0 modulo the width, so a successful one always changes the word).
+fn is_write(e: &Event) -> bool {
+    match e.class {
+        EvClass::Store => true,
+        EvClass::Rmw => e.add_form || e.before != e.after || e.stray >= 0,
+        EvClass::Unclassified => e.before != e.after || e.stray >= 0,
+        _ => false,
+    }
+}
+
+fn delta(e: &Event) -> u64 {
+    e.after.wrapping_sub(e.before) & mask(e.width)
+}
+
+fn ev_desc(e: &Event) -> String {
+    format!(
+        "{}{} {}B @{} {:#x}->{:#x} [{:02x} {:02x}]{}",
+        match e.class {
+            EvClass::Load => "load",
+            EvClass::Store => "store",
+            EvClass::Rmw => "rmw",
+            EvClass::RmwRead => "rmw-read",
+            EvClass::Unclassified => "unclassified",
+        },
+        if e.lock { "(lock)" } else if e.split { "(split)" } else { "" },
+        e.width,
+        e.off,
+        e.before,
+        e.after,
+        e.sig[0],
+        e.sig[1],
+        if e.writer_in_window { " writer-in-window" } else { "" }
+    )
+}
+
+/// The adds an execution is expected to carry out, in order, and whether it must end in Err.
+fn expected_writes(spec: &ExecSpec) -> (Vec<&Add>, bool) {
+    let mut v = Vec::new();
+    for a in &spec.adds {
+        if !aligned(a) && spec.engine == Engine::Interp {
+            return (v, true);
+        }
+        v.push(a);
+    }
+    (v, false)
+}
+
+fn check(sc: &Scenario, out: &RunOutput) -> Option<Violation> {
+    let n = sc.execs.len();
+    // ---- solo pass: each execution alone does exactly what its program says -----------------------
+    for i in 0..n {
+        let spec = &sc.execs[i];
+        let eng = spec.engine.name();
+        if let Outcome::NotBuilt(_) = out.outs[i].build {
+            continue; // cannot be built at all: not a C18 matter (counted)
+        }
+        let (exp, must_err) = expected_writes(spec);
+        let evs: Vec<&Event> = out.solo[i].events.iter().filter(|e| is_write(e)).collect();
+        match (&out.outs[i].solo, must_err) {
+            (Outcome::Signal(s), _) => return Some(Violation { class: format!("execution-crashed/{}", eng), detail: format!("execution #{} alone died with signal {}", i, s) }),
+            (Outcome::Panic(p), _) => return Some(Violation { class: format!("execution-crashed/{}", eng), detail: format!("execution #{} alone panicked: {}", i, p) }),
+            (Outcome::Ok(_), true) => {
+                return Some(Violation { class: "misaligned-not-refused".into(), detail: format!("execution #{} ({}) contains a misaligned atomic add and returned {}; events: {}", i, eng, out.outs[i].solo.short(), evs.iter().map(|e| ev_desc(e)).collect::<Vec<_>>().join(", ")) });
+            }
+            (Outcome::Err(e), false) => {
+                return Some(Violation { class: format!("aligned-xadd-refused/{}", eng), detail: format!("execution #{} has only naturally aligned atomic adds inside its region and returned Err: {}", i, e.lines().next().unwrap_or("")) });
+            }
+            _ => {}
+        }
+        if must_err && evs.len() > exp.len() {
+            return Some(Violation { class: "misaligned-touched-memory".into(), detail: format!("execution #{} ({}): the refused misaligned atomic add still wrote: {}", i, eng, ev_desc(evs[exp.len()])) });
+        }
+        if evs.len() != exp.len() {
+            return Some(Violation { class: format!("xadd-count/{}", eng), detail: format!("execution #{} alone produced {} write events for {} atomic adds: {}", i, evs.len(), exp.len(), evs.iter().map(|e| ev_desc(e)).collect::<Vec<_>>().join(", ")) });
+        }
+        for (j, (e, a)) in evs.iter().zip(exp.iter()).enumerate() {
+            if e.stray >= 0 {
+                return Some(Violation { class: format!("neighbour-clobbered/{}", eng), detail: format!("execution #{} add #{} ({}-bit at offset {}): byte at offset {} outside the word changed ({})", i, j, a.width * 8, a.off, e.stray, ev_desc(e)) });
+            }
+            if e.class != EvClass::Unclassified && (e.off != a.off || e.width != a.width) {
+                return Some(Violation { class: format!("wrong-width-or-offset/{}", eng), detail: format!("execution #{} add #{}: program says {}-bit at offset {}, the machine did {}", i, j, a.width * 8, a.off, ev_desc(e)) });
+            }
+            let want = a.addend & mask(a.width);
+            let w = if e.class == EvClass::Unclassified { a.width } else { e.width };
+            let got = e.after.wrapping_sub(e.before) & mask(w);
+            if got != want {
+                return Some(Violation { class: format!("not-the-source-register/{}/{}", eng, a.width * 8), detail: format!("execution #{} add #{}: the word changed by {:#x}, the source register holds {:#x} (truncated {:#x}); {}", i, j, got, a.addend, want, ev_desc(e)) });
+            }
+        }
+    }
+    // ---- concurrent pass --------------------------------------------------------------------------
+    if out.conc.overflow {
+        return None;
+    }
+    for i in 0..n {
+        let spec = &sc.execs[i];
+        let eng = spec.engine.name();
+        if let Outcome::NotBuilt(_) = out.outs[i].build {
+            continue;
+        }
+        if out.outs[i].conc.code() != out.outs[i].solo.code() {
+            let class = if matches!(out.outs[i].conc, Outcome::Signal(_) | Outcome::Panic(_)) { format!("execution-crashed/{}", eng) } else { format!("outcome-differs-under-concurrency/{}", eng) };
+            return Some(Violation { class, detail: format!("execution #{}: alone {}, concurrently {}", i, out.outs[i].solo.short(), out.outs[i].conc.short()) });
+        }
+        let solo: Vec<&Event> = out.solo[i].events.iter().filter(|e| is_write(e)).collect();
+        let conc: Vec<&Event> = out.conc.events.iter().filter(|e| e.thread as usize == i && is_write(e)).collect();
+        if solo.len() != conc.len() {
+            return Some(Violation { class: format!("xadd-count/{}", eng), detail: format!("execution #{}: {} write events alone, {} concurrently", i, solo.len(), conc.len()) });
+        }
+        for (j, (s, c)) in solo.iter().zip(conc.iter()).enumerate() {
+            if c.stray >= 0 {
+                return Some(Violation { class: format!("neighbour-clobbered/{}", eng), detail: format!("execution #{} write #{}: byte at offset {} outside the word changed ({})", i, j, c.stray, ev_desc(c)) });
+            }
+            if s.off != c.off || s.width != c.width {
+                return Some(Violation { class: format!("wrong-width-or-offset/{}", eng), detail: format!("execution #{} write #{}: alone {}, concurrently {}", i, j, ev_desc(s), ev_desc(c)) });
+            }
+            if delta(s) != delta(c) {
+                return Some(Violation {
+                    class: format!("lost-update/{}/{}", eng, c.width as u32 * 8),
+                    detail: format!(
+                        "execution #{} write #{} at offset {}: alone it changes the word by {:#x}, in this schedule by {:#x} ({}){}",
+                        i,
+                        j,
+                        c.off,
+                        delta(s),
+                        delta(c),
+                        ev_desc(c),
+                        if c.split { format!(": the read-modify-write is not LOCKed; it read {:#x}, another execution then changed the word to {:#x}, and it stored its stale sum", c.stale, c.before) } else { String::new() }
+                    ),
+                });
+            }
+        }
+    }
+    // final contents: initial + sum of all addends carried out, per word
+    let mut want = sc.init.clone();
+    for i in 0..n {
+        if let Outcome::NotBuilt(_) = out.outs[i].build {
+            continue;
+        }
+        let (exp, _) = expected_writes(&sc.execs[i]);
+        for a in exp {
+            let off = a.off as usize;
+            let w = a.width as usize;
+            let mut cur = 0u64;
+            for k in (0..w).rev() {
+                cur = (cur << 8) | want[off + k] as u64;
+            }
+            let nv = cur.wrapping_add(a.addend) & mask(a.width);
+            for k in 0..w {
+                want[off + k] = (nv >> (8 * k)) as u8;
+            }
+        }
+    }
+    if want != out.conc.final_page {
+        let pos = (0..PAGE).find(|i| want[*i] != out.conc.final_page[*i]).unwrap();
+        let slot = pos & !7;
+        return Some(Violation { class: "lost-update/final-sum".into(), detail: format!("after all executions the 8 bytes at offset {} hold {} ; initial value plus the sum of all addends is {}", slot, simcore::hex(&out.conc.final_page[slot..slot + 8]), simcore::hex(&want[slot..slot + 8])) });
+    }
+    None
+}
+
+// ---------------------------------------------------------------------------------------------
+// Statistics
+// ---------------------------------------------------------------------------------------------
+
+#[derive(Default)]
+struct Stats {
+    counters: BTreeMap<String, u64>,
+    sigs: BTreeSet<u64>,
+    nontrivial: u64,
+}
+
+impl Stats {
+    fn inc(&mut self, k: &str, n: u64) {
+        *self.counters.entry(k.to_string()).or_insert(0) += n;
+    }
+}
+
+/// (event-log hash, schedule signature, non-trivial?)
+fn summarise(sc: &Scenario, out: &RunOutput, st: &mut Stats) -> (u64, u64, bool) {
+    let mut log = Fnv::new();
+    let mut sig = Fnv::new();
+    for (i, o) in out.outs.iter().enumerate() {
+        log.byte(o.build.code());
+        log.byte(o.solo.code());
+        log.byte(o.conc.code());
+        for e in &out.solo[i].events {
+            log.byte(e.class as u8);
+            log.u64(e.off as u64);
+            log.u64(e.before);
+            log.u64(e.after);
+        }
+        if let Outcome::NotBuilt(_) = o.build {
+            st.inc("executions_not_buildable", 1);
+        }
+    }
+    for e in &out.conc.events {
+        log.byte(e.thread);
+        log.byte(e.class as u8);
+        log.byte(e.lock as u8);
+        log.u64(e.off as u64);
+        log.u64(e.before);
+        log.u64(e.after);
+        sig.byte(e.thread);
+        sig.byte(sc.execs[e.thread as usize].engine as u8);
+        sig.byte(e.class as u8);
+        sig.u64(e.off as u64);
+        sig.byte(e.width);
+    }
+    for d in &out.conc.effective {
+        log.byte(*d);
+    }
+    log.bytes(&out.conc.final_page[..sc.region_len]);
+    // reach probes
+    st.inc("context_switches", out.conc.switches as u64);
+    st.inc("scheduling_decisions", out.conc.effective.len() as u64);
+    st.inc("intercepted_accesses", out.conc.events.len() as u64);
+    let mut by_word: BTreeMap<(u16, u8), Vec<(usize, usize)>> = BTreeMap::new(); // word -> [(position, thread)]
+    for (pos, e) in out.conc.events.iter().enumerate() {
+        let eng = sc.execs[e.thread as usize].engine.name();
+        match e.class {
+            EvClass::Rmw => {
+                if e.lock {
+                    st.inc(&format!("locked_rmw/{}/{:02x}{:02x}", eng, e.sig[0], e.sig[1]), 1);
+                } else {
+                    st.inc(&format!("split_unlocked_rmw/{}", eng), 1);
+                    if e.writer_in_window {
+                        st.inc("writer_inside_rmw_window", 1);
+                    }
+                }
+                if !e.add_form {
+                    st.inc("rmw_not_add_form", 1);
+                }
+            }
+            EvClass::Store => st.inc(&format!("plain_store/{}", eng), 1),
+            EvClass::Unclassified => st.inc("unclassified_accesses", 1),
+            _ => {}
+        }
+        if is_write(e) {
+            by_word.entry((e.off & !7, 8)).or_default().push((pos, e.thread as usize));
+        }
+    }
+    let mut nontrivial = false;
+    let mut mixed = false;
+    for v in by_word.values() {
+        let threads: BTreeSet<usize> = v.iter().map(|x| x.1).collect();
+        if threads.len() >= 2 {
+            // interleaved: some thread's writes to this slot are not contiguous in the slot's order,
+            // or another thread's access sits between two accesses of one thread
+            let order: Vec<usize> = v.iter().map(|x| x.1).collect();
+            let mut changes = 0;
+            for k in 1..order.len() {
+                if order[k] != order[k - 1] {
+                    changes += 1;
+                }
+            }
+            if changes >= threads.len() {
+                nontrivial = true;
+            }
+            let engines: BTreeSet<u8> = threads.iter().map(|t| sc.execs[*t].engine as u8).collect();
+            if engines.len() >= 2 {
+                mixed = true;
+            }
+        }
+    }
+    if mixed {
+        st.inc("runs_with_two_engines_on_one_word", 1);
+    }
+    // a switch between two XADDs of one execution
+    let mut last_write_thread: Option<usize> = None;
+    let mut seen_other_since: [bool; MAXT] = [false; MAXT];
+    let mut wrote_once: [bool; MAXT] = [false; MAXT];
+    let mut between = false;
+    for e in out.conc.events.iter().filter(|e| is_write(e)) {
+        let t = e.thread as usize;
+        if wrote_once[t] && seen_other_since[t] {
+            between = true;
+        }
+        wrote_once[t] = true;
+        seen_other_since[t] = false;
+        for (k, s) in seen_other_since.iter_mut().enumerate() {
+            if k != t {
+                *s = true;
+            }
+        }
+        last_write_thread = Some(t);
+    }
+    let _ = last_write_thread;
+    if between {
+        st.inc("runs_with_switch_between_two_xadds_of_one_execution", 1);
+    }
+    for (i, spec) in sc.execs.iter().enumerate() {
+        st.inc(&format!("executions/{}/{}", spec.engine.name(), spec.reach.name()), 1);
+        if spec.adds.iter().any(|a| !aligned(a)) && spec.engine == Engine::Interp {
+            st.inc("executions_with_misaligned_xadd", 1);
+            if matches!(out.outs[i].solo, Outcome::Err(_)) {
+                st.inc("misaligned_xadd_refused", 1);
+            }
+        }
+    }
+    (log.finish(), sig.finish(), nontrivial)
+}
+
+// ---------------------------------------------------------------------------------------------
+// Minimisation
+// ---------------------------------------------------------------------------------------------
+
+fn eval(sc: &Scenario) -> (Option<Violation>, RunOutput) {
+    let mut dummy = Rng::new(0);
+    let out = run_scenario(sc, &mut dummy);
+    (check(sc, &out), out)
+}
+
+fn same_class(v: &Option<Violation>, class: &str) -> bool {
+    v.as_ref().map(|v| v.class == class).unwrap_or(false)
+}
+
+/// `sc` must carry an explicit schedule. Fewer executions, fewer adds, then fewest context switches.
+fn minimise(sc: &Scenario, class: &str) -> (Scenario, usize) {
+    let mut cur = sc.clone();
+    let mut evals = 0usize;
+    let budget = 400usize;
+    // drop executions (thread ids in the schedule are remapped)
+    let mut i = 0;
+    while i < cur.execs.len() && cur.execs.len() > 1 && evals < budget {
+        let mut cand = cur.clone();
+        cand.execs.remove(i);
+        if let Some(s) = cand.schedule.as_mut() {
+            s.retain(|d| *d as usize != i);
+            for d in s.iter_mut() {
+                if *d as usize > i {
+                    *d -= 1;
+                }
+            }
+        }
+        evals += 1;
+        let (v, out) = eval(&cand);
+        if same_class(&v, class) {
+            cand.schedule = Some(out.conc.effective.clone());
+            cur = cand;
+        } else {
+            i += 1;
+        }
+    }
+    // drop adds
+    for t in 0..cur.execs.len() {
+        let mut j = 0;
+        while j < cur.execs[t].adds.len() && cur.execs[t].adds.len() > 1 && evals < budget {
+            let mut cand = cur.clone();
+            cand.execs[t].adds.remove(j);
+            evals += 1;
+            let (v, out) = eval(&cand);
+            if same_class(&v, class) {
+                cand.schedule = Some(out.conc.effective.clone());
+                cur = cand;
+            } else {
+                j += 1;
+            }
+        }
+        if cur.execs[t].tail_load.is_some() && evals < budget {
+            let mut cand = cur.clone();
+            cand.execs[t].tail_load = None;
+            evals += 1;
+            let (v, out) = eval(&cand);
+            if same_class(&v, class) {
+                cand.schedule = Some(out.conc.effective.clone());
+                cur = cand;
+            }
+        }
+    }
+    // fewest context switches: make decision k repeat decision k-1 where the violation survives
+    let mut k = 1;
+    while evals < budget {
+        let sched = cur.schedule.clone().unwrap_or_default();
+        if k >= sched.len() {
+            break;
+        }
+        if sched[k] == sched[k - 1] {
+            k += 1;
+            continue;
+        }
+        let mut cand = cur.clone();
+        let mut s2 = sched.clone();
+        s2[k] = s2[k - 1];
+        cand.schedule = Some(s2);
+        evals += 1;
+        let (v, out) = eval(&cand);
+        if same_class(&v, class) && count_switches(&out.conc.effective) < count_switches(&sched) {
+            cand.schedule = Some(out.conc.effective.clone());
+            cur = cand;
+        } else {
+            k += 1;
+        }
+    }
+    // simplify addends
+    for t in 0..cur.execs.len() {
+        for j in 0..cur.execs[t].adds.len() {
+            if evals >= budget {
+                break;
+            }
+            let mut cand = cur.clone();
+            cand.execs[t].adds[j].addend = 1;
+            cand.execs[t].adds[j].via_lddw = false;
+            evals += 1;
+            let (v, _) = eval(&cand);
+            if same_class(&v, class) {
+                cur = cand;
+            }
+        }
+    }
+    (cur, evals)
+}
+
+fn count_switches(s: &[u8]) -> usize {
+    (1..s.len()).filter(|k| s[*k] != s[*k - 1]).count()
+}
+
+// ---------------------------------------------------------------------------------------------
+// CLI
+// ---------------------------------------------------------------------------------------------
+
+fn arg<'a>(args: &'a [String], name: &str) -> Option<&'a str> {
+    args.iter().position(|a| a == name).and_then(|i| args.get(i + 1)).map(|s| s.as_str())
+}
+
+fn trace(sc: &Scenario, out: &RunOutput) -> Vec<String> {
+    let mut t = Vec::new();
+    for (i, e) in sc.execs.iter().enumerate() {
+        t.push(format!("execution #{}: {} via {}: {}", i, e.engine.name(), e.reach.name(), disasm(&build_program(e, 0x1000_0000_0000))));
+        t.push(format!("    build {} | alone {} | concurrently {}", out.outs[i].build.short(), out.outs[i].solo.short(), out.outs[i].conc.short()));
+        t.push(format!("    alone: {}", out.solo[i].events.iter().map(ev_desc).collect::<Vec<_>>().join(", ")));
+    }
+    t.push(format!("schedule decisions: {:?}", out.conc.effective));
+    for e in &out.conc.events {
+        t.push(format!("    [exec #{} {}] {}", e.thread, sc.execs[e.thread as usize].engine.name(), ev_desc(e)));
+    }
+    t
+}
+
+fn replay_json(sc: &Scenario, seed: u64, index: u64, v: &Option<Violation>, out: &RunOutput, log_hash: u64) -> JsonValue {
+    let mut o = JsonValue::new_object();
+    o["engine"] = "xaddsim".into();
+    o["property"] = "C18".into();
+    o["verif_seed"] = simcore::ju64(seed);
+    o["run_index"] = simcore::ju64(index);
+    o["scenario"] = sc.to_json();
+    if let Some(v) = v {
+        let mut vj = JsonValue::new_object();
+        vj["class"] = v.class.clone().into();
+        vj["detail"] = v.detail.clone().into();
+        o["violation"] = vj;
+    }
+    o["log_hash"] = simcore::ju64(log_hash);
+    o["trace"] = JsonValue::Array(trace(sc, out).iter().map(|s| s.as_str().into()).collect());
+    o
+}
+
+fn scenario_for(seed: u64, index: u64) -> (Scenario, Rng) {
+    let mut rng = Rng::new(mix(seed ^ 0x1818_1818, index));
+    let sc = generate(&mut rng);
+    (sc, rng)
+}
+
+fn cmd_run(args: &[String]) -> i32 {
+    let seed: u64 = arg(args, "--seed").unwrap_or("1").parse().expect("--seed");
+    let start: u64 = arg(args, "--start").unwrap_or("0").parse().expect("--start");
+    let count: u64 = arg(args, "--count").unwrap_or("100").parse().expect("--count");
+    let out_path = arg(args, "--out").expect("--out FILE");
+    let hash_every: u64 = arg(args, "--hash-every").unwrap_or("1").parse().expect("--hash-every");
+    let max_violations: u64 = arg(args, "--max-violations").unwrap_or("12").parse().expect("--max-violations");
+    let t0 = Instant::now();
+    let mut st = Stats::default();
+    let mut hashes: Vec<(u64, u64)> = Vec::new();
+    let mut vclasses: BTreeMap<String, u64> = BTreeMap::new();
+    let mut violations: Vec<JsonValue> = Vec::new();
+    let mut samples: Vec<JsonValue> = Vec::new();
+    let mut runs_done = 0u64;
+    for index in start..start + count {
+        let (mut sc, mut rng) = scenario_for(seed, index);
+        let out = run_scenario(&sc, &mut rng);
+        runs_done += 1;
+        let v = check(&sc, &out);
+        let (h, sig, nontrivial) = summarise(&sc, &out, &mut st);
+        if nontrivial {
+            st.nontrivial += 1;
+            st.sigs.insert(sig);
+        }
+        if out.conc.overflow {
+            st.inc("event_buffer_overflow_runs", 1);
+        }
+        if index % hash_every == 0 {
+            hashes.push((index, h));
+        }
+        if samples.len() < 2 && nontrivial && v.is_none() {
+            let mut s = JsonValue::new_object();
+            s["run_index"] = simcore::ju64(index);
+            s["trace"] = JsonValue::Array(trace(&sc, &out).iter().map(|x| x.as_str().into()).collect());
+            samples.push(s);
+        }
+        if let Some(viol) = v {
+            let c = vclasses.entry(viol.class.clone()).or_insert(0);
+            *c += 1;
+            if *c == 1 {
+                // from here on the schedule is explicit
+                sc.schedule = Some(out.conc.effective.clone());
+                let (min_sc, evals) = minimise(&sc, &viol.class);
+                let (v1, o1) = eval(&min_sc);
+                let mut st1 = Stats::default();
+                let (h1, _, _) = summarise(&min_sc, &o1, &mut st1);
+                let (v2, o2) = eval(&min_sc);
+                let (h2, _, _) = summarise(&min_sc, &o2, &mut st1);
+                let mut fixed = min_sc.clone();
+                fixed.schedule = Some(o1.conc.effective.clone());
+                let mut rep = replay_json(&fixed, seed, index, &v1, &o1, h1);
+                rep["minimiser_evaluations"] = evals.into();
+                rep["original_executions"] = sc.execs.len().into();
+                rep["original_decisions"] = out.conc.effective.len().into();
+                rep["replays_identically_in_process"] = (h1 == h2 && v1.as_ref().map(|x| &x.class) == v2.as_ref().map(|x| &x.class)).into();
+                rep["history_kinds"] = JsonValue::Array(fixed.execs.iter().map(|e| format!("{}:{}", e.engine.name(), e.adds.iter().map(|a| format!("xadd{}", a.width as u32 * 8)).collect::<Vec<_>>().join("+")).into()).collect());
+                violations.push(rep);
+            }
+            if vclasses.values().sum::<u64>() >= max_violations {
+                break;
+            }
+        }
+    }
+    let mut o = JsonValue::new_object();
+    o["prop"] = "C18".into();
+    o["seed"] = simcore::ju64(seed);
+    o["start"] = simcore::ju64(start);
+    o["count"] = simcore::ju64(count);
+    o["runs_done"] = simcore::ju64(runs_done);
+    o["nontrivial_runs"] = simcore::ju64(st.nontrivial);
+    let mut cj = JsonValue::new_object();
+    for (k, v) in &st.counters {
+        cj[k.as_str()] = simcore::ju64(*v);
+    }
+    o["counters"] = cj;
+    o["schedule_sigs"] = JsonValue::Array(st.sigs.iter().map(|s| simcore::ju64(*s)).collect());
+    o["hashes"] = JsonValue::Array(hashes.iter().map(|(i, h)| json::array![simcore::ju64(*i), simcore::ju64(*h)]).collect());
+    let mut vc = JsonValue::new_object();
+    for (k, v) in &vclasses {
+        vc[k.as_str()] = simcore::ju64(*v);
+    }
+    o["violation_classes"] = vc;
+    o["violations"] = JsonValue::Array(violations);
+    o["samples"] = JsonValue::Array(samples);
+    o["wall_s"] = t0.elapsed().as_secs_f64().into();
+    std::fs::write(out_path, json::stringify_pretty(o, 1)).expect("write out");
+    0
+}
+
+fn cmd_replay(args: &[String]) -> i32 {
+    let path = match args.get(2) {
+        Some(p) => p,
+        None => return 2,
+    };
+    let text = match std::fs::read_to_string(path) {
+        Ok(t) => t,
+        Err(e) => {
+            eprintln!("cannot read {}: {}", path, e);
+            return 2;
+        }
+    };
+    let v = match json::parse(&text) {
+        Ok(v) => v,
+        Err(e) => {
+            eprintln!("bad replay file: {}", e);
+            return 2;
+        }
+    };
+    let sc = match Scenario::from_json(&v["scenario"]) {
+        Some(s) => s,
+        None => {
+            eprintln!("bad scenario");
+            return 2;
+        }
+    };
+    if sc.schedule.is_none() || sc.execs.len() > MAXT {
+        eprintln!("replay file has no explicit schedule");
+        return 2;
+    }
+    let (viol, out) = eval(&sc);
+    let mut st = Stats::default();
+    let (h, _, _) = summarise(&sc, &out, &mut st);
+    for l in trace(&sc, &out) {
+        println!("{}", l);
+    }
+    let rec_class = v["violation"]["class"].as_str().unwrap_or("");
+    let rec_hash = simcore::pu64(&v["log_hash"]).unwrap_or(0);
+    match viol {
+        Some(x) => {
+            println!("{}: {}", x.class, x.detail);
+            let same = x.class == rec_class && h == rec_hash;
+            println!("replay: violation class '{}' (recorded '{}'), event-log hash {} (recorded {}): {}", x.class, rec_class, h, rec_hash, if same { "REPRODUCED EXACTLY" } else if x.class == rec_class { "same violation, different event log" } else { "DIFFERENT violation" });
+            println!("VIOLATION property=C18 replay={}", path);
+            1
+        }
+        None => {
+            println!("replay: no violation on this tree (recorded '{}')", rec_class);
+            0
+        }
+    }
+}
+
+fn cmd_show(args: &[String]) -> i32 {
+    let seed: u64 = arg(args, "--seed").unwrap_or("1").parse().expect("--seed");
+    let index: u64 = arg(args, "--index").unwrap_or("0").parse().expect("--index");
+    let (sc, mut rng) = scenario_for(seed, index);
+    let out = run_scenario(&sc, &mut rng);
+    let v = check(&sc, &out);
+    for l in trace(&sc, &out) {
+        println!("{}", l);
+    }
+    println!("strategy {:?}, switches {}, violation {:?}", sc.strategy, out.conc.switches, v);
+    0
+}
+
+fn main() {
+    let args: Vec<String> = std::env::args().collect();
+    std::panic::set_hook(Box::new(|_| {}));
+    sched::init();
+    let code = match args.get(1).map(|s| s.as_str()) {
+        Some("run") => cmd_run(&args),
+        Some("replay") => cmd_replay(&args),
+        Some("show") => cmd_show(&args),
+        _ => {
+            eprintln!("usage: xaddsim run|replay|show ...");
+            2
+        }
+    };
+    std::process::exit(code);
+}
